@@ -456,6 +456,8 @@ func (c *ctx) flushHist() {
 		want := "lin=0"
 		if p.goLin {
 			want = "lin=1"
+		} else if !wellFormed(p.h.Ops) {
+			want = "err=annotation"
 		}
 		c.res.Traces++
 		if outs[i] != want {
